@@ -97,6 +97,8 @@ def check_C01(ctx):
     wire_props(ctx, ("full",), ("W1", "W2", "W3", "W4", "W5", "PROB"), 56)
     rep.rule("ALIGN", "the writer's align and the stream reader's align move by the same amount pad_align_to(position, unit(T)) (the alignment point is an atom of the wire terms; its two implementations are compared here)")
     align_pair(ctx, ("default WriteWithNames", "ReaderWithPos"))
+    if ctx.tier == "thorough":
+        generated_corpus(ctx, rep, ("W1", "W2", "W3", "W4", "W5", "PROB"), modes=("full",))
     return ("Static sibling agreement (writer vs full-copy reader) of every built-in impl: wire terms extracted by abstract "
             "interpretation of THIR with every stream value symbolic; by induction over types, agreement at every impl is the "
             "static content of the round trip. Value-level leaf pairings (to_ne_bytes/from_ne_bytes, bool, char) are not decided.")
@@ -109,6 +111,8 @@ def check_C02(ctx):
     wire_props(ctx, ("eps",), ("W1", "W2", "W3", "W4", "PROB"), 56)
     rep.rule("ALIGN", "the writer's align and the slice reader's align move by the same amount pad_align_to(position, unit(T))")
     align_pair(ctx, ("default WriteWithNames", "SliceWithPos"))
+    if ctx.tier == "thorough":
+        generated_corpus(ctx, rep, ("W1", "W2", "W3", "W4", "PROB"), modes=("eps",))
     rep.rule("WITNESS", "the documented DeserType substitution as generic compile-pass witnesses (proved by rustc for all instantiations) with negative controls")
     from . import witness
     n = witness.run_probes(ctx, rep, "C02")
@@ -125,10 +129,16 @@ def check_C15(ctx):
     rep.floor("built-in tagged sum types", nsum, 3)
     nsum2 = sum(1 for t in ts if getattr(t, "is_sum", False) and t.crate != "epserde")
     rep.floor("derived enums of the corpus", nsum2, 7)
+    if ctx.tier == "thorough":
+        r = generated_corpus(ctx, rep, ("W3",))
+        if r:
+            ng = sum(1 for t in r[1] if getattr(t, "is_sum", False))
+            rep.count("generated_enums", ng)
+            rep.floor("generated enums", ng, 40)
     return "Tag tables of every tagged sum type extracted from the resolved program (writer match on self, reader match on the tag read) and compared as finite maps."
 
 
-def generated_corpus(ctx, rep, want, mode_rule=False, assoc=False, hash_rule=False):
+def generated_corpus(ctx, rep, want, mode_rule=False, assoc=False, hash_rule=False, modes=("full", "eps")):
     """Thorough tier: the bounded-exhaustive + random generated corpus (epsrules/gen_corpus.py)."""
     seed = ctx.seed
     src, expect = gen_corpus.make("thorough", seed)
@@ -146,7 +156,7 @@ def generated_corpus(ctx, rep, want, mode_rule=False, assoc=False, hash_rule=Fal
     for t in ts:
         t.universe = u
         t.wire = w
-        rules_wire.check_triple(t, exp, rep, modes=("full", "eps"), want=want)
+        rules_wire.check_triple(t, exp, rep, modes=modes, want=want)
         n += 1
     rep.count("generated_definitions", expect["defs"])
     rep.count("generated_impl_pairs_analysed", n)
@@ -360,6 +370,9 @@ def check_C04(ctx):
     nd = rules_hash.rule_H1_derived(u, recs, rep, {"wcorpus": os.path.join(common.VERIF, "witness", "wcorpus", "src", "lib.rs")})
     rep.floor("hash recipes extracted", len(recs), 180)
     rep.floor("derived recipes checked against the definition", nd, 60)
+    if ctx.tier == "thorough":
+        generated_corpus(ctx, rep, (), hash_rule=True)
+        rep.floor("generated recipes checked against the definition", rep.counters.get("generated_recipes_checked", 0), 300)
     # header rows 5-6 and dominance
     sub = Report("C04", ctx.tier)
     rules_header.rules_G(u, sub)
@@ -490,6 +503,12 @@ def check_C07(ctx):
     rep.floor("derived zero-copy units checked", nd, 15)
     rules_align.rule_align_impls(u, rep)
     rules_align.rule_pos_accounting(u, rep)
+    if ctx.tier == "thorough":
+        r = generated_corpus(ctx, rep, ("W4",))
+        if r:
+            kg = rules_align.rule_M2(r[0], rep)
+            rep.count("generated_zero_copy_units", kg)
+            rep.floor("derived zero-copy units of the generated corpus", kg, 45)
     return ("Alignment units folded by constant propagation over rustc's layouts for a universe of closed zero-copy types; the four align implementations "
             "and the position-tracking wrappers checked by abstract interpretation (same padding expression, zero bytes, exact position accounting); "
             "adjacency of alignment points and raw blocks on all three sides of every impl. The arithmetic of pad_align_to itself (minimality for every "
@@ -694,40 +713,21 @@ def check_C11(ctx):
     rep.rule("S-WHO", "std::io::Read::read (the short-read form) is not called in deser/ and impls/")
     rep.rule("RAW-CARVE", "eps readers touch the input only through bounds-checked slicing/indexing (no from_raw_parts / get_unchecked on backend.data); unknown uses of the backend are reported")
     rep.rule("CURSOR", "every peek is consumed by a skip of the same amount and the position advances by the same amount (nothing is read twice or past the cursor)")
-    rep.rule("MAPLEN", "the mmap loader maps exactly the file length")
+    rep.rule("MAPLEN", "the mmap loader maps the file from offset 0 for exactly metadata().len() bytes (no rounding: the kernel zero-extends a longer mapping to the page end)")
     ts = wire_props(ctx, ("full", "eps"), ("W1", "PROB"), 56)
     u = ctx.universe("default", CORPUS)
     rules_eps.rule_eps_borrow(u, ts, rep, props=("raw",))
     n = rules_err.rule_PERR(u, rep, DESER_SCOPE)
     rep.floor("Result-returning call sites in deser/impls", n, 60)
+    rep.rule("ERR-DROP", "MIR after drop elaboration: no Result<_, crate error> produced by a call or assignment reaches the Drop of its local (scope end or overwrite) on a normal path without having been moved, matched or borrowed")
+    nd = rules_err.rule_err_drop(u, rep, DESER_SCOPE)
+    rep.floor("Result-typed MIR locals tracked in deser/impls", nd, 100)
     rules_err.rule_who_calls(u, rep, {"std::io::Read::read", "std::io::Read::read_to_end", "std::io::Read::read_buf"}, DESER_SCOPE, "S-WHO",
                              "short reads must be handled by read_exact, whose contract turns a premature end of file into an error")
-    rules_eps_mmap_len(u, rep)
+    n = rules_loader.rule_maplen(u, rep)
+    rep.floor("mapping length/offset sites in Deserialize::mmap", n, 2)
     return ("Static content of 'a strict prefix is never turned into a value': sibling agreement of the byte consumption, error discipline of every read, closed list of ways "
             "the eps reader touches the input (bounds-checked), exact mapping length. Which error each individual cut yields is not decided.")
-
-
-def rules_eps_mmap_len(u, rep):
-    """Deserialize::mmap: the length passed to MmapOptions::new is the file length, unrounded."""
-    for b in u.bodies.values():
-        if b.d.get("name") != "mmap" or b.d.get("krate") != "epserde" or b.thir is None or b.kind != "AssocFn":
-            continue
-        acc = []
-        rules_err.calls_in(b.crate, b.thir["root"], acc)
-        for (dj, rj, e) in acc:
-            if dj.get("name") == "new" and dj.get("krate") == "mmap_rs" and e["args"]:
-                a = e["args"][0]
-                # the argument must be (a cast of) the variable bound to metadata().len()
-                def strip(x):
-                    while x.get("k") in ("Cast", "Use", "NeverToAny"):
-                        x = x["e"]
-                    return x
-                a0 = strip(a)
-                ok = a0.get("k") == "Var"
-                rep.oblige(ok)
-                rep.count("mmap_len_sites")
-                if not ok:
-                    rep.add("MAPLEN", "mmap", "the mmap loader maps `%s` bytes rather than exactly the file length" % a0.get("k"), b.crate.span(e["sp"]))
 
 
 def check_C18(ctx):
@@ -750,10 +750,12 @@ def check_C08(ctx):
     rep.rule("STORE", "store = create+truncate the destination, one buffered serialize of self, failure propagated")
     rep.rule("ARG", "each loader hands deserialize_eps the bytes of the backend at its final place inside the MemCase being built")
     rep.rule("FILL", "copying loaders zero-fill [file_len..capacity) after reading the file and before deserializing")
+    rep.rule("MAPLEN", "the mmap loader maps the file from offset 0 for exactly metadata().len() bytes")
     rep.rule("CAP", "copying loaders allocate file_len + pad_align_to(file_len, K), K a positive power of two equal to the allocation alignment")
     rep.rule("SHAPE", "MemCase(structure, backend) in this order, no Drop impl, Send/Sync bounded by S, backends own their memory through a pointer, heap region alignment 64, no method gives away the structure or the backend")
     rep.rule("FLAGS", "every Flags constant is translated to the mmap_rs flag of the same name")
     rep.rule("P-ERR", "results in deser/mod.rs and ser/mod.rs are propagated")
+    rep.rule("ERR-DROP", "MIR after drop elaboration: no Result<_, crate error> produced by a call or assignment reaches the Drop of its local (scope end or overwrite) on a normal path without having been moved, matched or borrowed")
     nload = 0
     for config, floor in (("default", 3), ("nommap", 1)):
         try:
@@ -767,11 +769,15 @@ def check_C08(ctx):
         rules_loader.rule_memcase_shape(u, sub)
         rules_loader.rule_store(u, sub)
         if config == "default":
+            nm = rules_loader.rule_maplen(u, sub)
+            sub.floor("mapping length/offset sites in Deserialize::mmap", nm, 2)
             ok = rules_loader.rule_flags(u, sub)
             if not ok:
                 sub.add("ANCHOR", "mmap_flags", "cannot locate the flag translation function")
         rules_err.rule_PERR(u, sub, ("epserde/src/deser/mod.rs", "epserde/src/ser/mod.rs", "epserde/src/deser/mem_case.rs"))
+        rules_err.rule_err_drop(u, sub, ("epserde/src/deser/mod.rs", "epserde/src/ser/mod.rs", "epserde/src/deser/mem_case.rs"))
         sub.floor("loaders analysed [%s]" % config, n, floor)
+        sub.floor("loader paths on which the zero-fill obligation was decided [%s]" % config, sub.counters.get("fill_paths", 0), 4 if config == "default" else 2)
         for f in sub.findings:
             f.key = "%s[%s]" % (f.key, config) if config != "default" else f.key
             rep.findings.append(f)
@@ -789,6 +795,7 @@ def check_C09(ctx):
     rep = ctx.rep
     rep.rule("LEAK", "on every path of a loader, once the backend has been written into the MaybeUninit MemCase, the function leaves only through assume_init or after drop_in_place of that field")
     rep.rule("RAW", "no fallible step between a raw allocation and the value that takes ownership of it")
+    rep.rule("ALLOC-LAYOUT", "load_mem: alloc(Layout(S, A)) handed to Vec<E>::from_raw_parts(_, len, cap) with A == align_of::<E>(), cap == S / size_of::<E>() exactly, len == cap (E = element type of MemBackend::Memory): released as allocated")
     rep.rule("SHAPE", "drop order structure -> backend by declaration order, no Drop impl, no API that separates the structure from its backend")
     rep.rule("WITNESS", "compile-fail probes: borrowed eps results cannot outlive their buffer; references obtained from a MemCase cannot outlive it")
     rep.rule("S-WHO", "no forget / leak / into_raw / ManuallyDrop on a backend")
@@ -796,10 +803,13 @@ def check_C09(ctx):
     n = rules_loader.rule_loader_paths(u, rep, want=("LEAK", "RAW"))
     rep.floor("loaders analysed", n, 3)
     rules_loader.rule_memcase_shape(u, rep)
+    na = rules_loader.rule_alloc_layout(u, rep)
+    rep.floor("raw allocation -> Vec::from_raw_parts sites in load_mem", na, 1)
     try:
         u2 = ctx.universe("nommap")
         sub = Report("C09", ctx.tier)
         n2 = rules_loader.rule_loader_paths(u2, sub, want=("LEAK", "RAW"))
+        rules_loader.rule_alloc_layout(u2, sub)
         for f in sub.findings:
             f.key = "%s[nommap]" % f.key
             rep.findings.append(f)
@@ -836,6 +846,9 @@ def check_C13(ctx):
     u = ctx.universe("default", CORPUS)
     n = rules_err.rule_PERR(u, rep, SER_SCOPE)
     rep.floor("Result-returning call sites in ser/impls", n, 60)
+    rep.rule("ERR-DROP", "MIR after drop elaboration: no Result<_, crate error> produced by a call or assignment reaches the Drop of its local (scope end or overwrite) on a normal path without having been moved, matched or borrowed")
+    nd = rules_err.rule_err_drop(u, rep, SER_SCOPE)
+    rep.floor("Result-typed MIR locals tracked in ser/impls", nd, 100)
     rules_err.rule_who_calls(u, rep, {"std::io::Write::write", "std::io::Write::write_vectored"}, SER_SCOPE, "S-WHO",
                              "short writes must be handled by write_all")
     m = rules_loader.rule_err_to_ok(u, rep, SER_SCOPE)
@@ -875,6 +888,9 @@ def check_C14(ctx):
                              "short reads must be handled by read_exact")
     n = rules_err.rule_PERR(u, rep, DESER_SCOPE)
     rep.floor("Result-returning call sites in deser/impls", n, 60)
+    rep.rule("ERR-DROP", "MIR after drop elaboration: no Result<_, crate error> produced by a call or assignment reaches the Drop of its local (scope end or overwrite) on a normal path without having been moved, matched or borrowed")
+    nd = rules_err.rule_err_drop(u, rep, DESER_SCOPE)
+    rep.floor("Result-typed MIR locals tracked in deser/impls", nd, 100)
     rules_loader.rule_err_to_ok(u, rep, DESER_SCOPE)
     k = rules_loader.rule_uninit_exposed(u, rep, DESER_SCOPE)
     rep.floor("set_len sites analysed", k, 1)
@@ -927,6 +943,15 @@ def check_C17(ctx):
     rep.floor("const-evaluated IS_ZERO_COPY values", m, 10)
     from . import witness
     witness.run_probes(ctx, rep, "C17")
+    if ctx.tier == "thorough":
+        r = generated_corpus(ctx, rep, ())
+        if r:
+            ng = rules_zc.rule_zc_guard(r[0], r[1], rep)
+            kg = rules_zc.rule_derived_const(r[0], rep)
+            rep.count("generated_raw_emission_sites", ng)
+            rep.count("generated_is_zero_copy_constants", kg)
+            rep.floor("raw emission sites of the generated corpus", ng, 45)
+            rep.floor("derived IS_ZERO_COPY constants of the generated corpus", kg, 300)
     return ("Static guard analysis: raw emission is dominated by the IS_ZERO_COPY check on every writer path; the constant is the conjunction over all fields (derive output of the corpus) "
             "and is const-evaluated by rustc for wrongly declared types; compile-fail witnesses for the derive-time refusals.")
 
@@ -934,9 +959,10 @@ def check_C17(ctx):
 def check_C19(ctx):
     rep = ctx.rep
     rep.rule("CUR-WRITE", "write: Ok(n) => pos' = pos + n, len' = max(len, pos'), buf copied to storage[pos..pos+n], growth by resize(_, T::default()), never shrinks; Err => state unchanged")
-    rep.rule("CUR-READ", "read: Ok(0) only when pos >= len; otherwise n = min(buf.len(), len - pos) under pos < len, pos' = pos + n, len unchanged")
+    rep.rule("CUR-READ", "read: Ok(0) only when pos >= len; otherwise n = min(buf.len(), len - pos) under pos < len, pos' = pos + n, len unchanged, storage[pos..pos+n] copied into buf[..n]")
     rep.rule("CUR-SEEK", "seek: Start sets the given value; End/Current = length/position + offset through checked_add_signed; failing paths leave the state unchanged; length never changes")
     rep.rule("CUR-ACC / CUR-BASE", "position/len/set_position are plain accessors; as_bytes(_mut) is the first len bytes at the base address of the aligned storage")
+    rep.rule("CUR-WHO", "no method other than write changes the length or the storage (as_bytes_mut hands out only the first len bytes)")
     rep.rule("SUB", "every usize subtraction in the cursor is guarded by a condition on the same path (or is MAX - x)")
     u = ctx.universe()
     n = rules_cursor.rule_cursor(u, rep)
